@@ -318,7 +318,10 @@ func c16Acquire(p *load.Program, r *oblig.Report) {
 // ---- R3
 
 func c16Release(p *load.Program, r *oblig.Report) {
-	const rule = "C16.R3 Close returns the object to its pool once, reset, and forgets it"
+	c16ReleaseAs(p, r, "C16.R3 Close returns the object to its pool once, reset, and forgets it")
+}
+
+func c16ReleaseAs(p *load.Program, r *oblig.Report, rule string) {
 	n := 0
 	for _, rel := range c16Pkgs {
 		for _, fn := range pkgFuncs(p, rel) {
